@@ -614,9 +614,9 @@ impl PacketReceiver for IceConn {
                                 *probation_guard = None; // drop state
                                 drop(probation_guard);
 
-                                if win_addr != current_remote {
-                                    *self.remote_addr.write() = win_addr;
-                                }
+                                // `current_remote` was read before the provisional write
+                                // above, so compare against nothing: always commit the winner.
+                                *self.remote_addr.write() = win_addr;
                                 self.rtp_latched.store(true, Ordering::Relaxed);
                                 trace!(
                                     "IceConn: RTP latched to {} after probation \
